@@ -82,6 +82,11 @@ def judge_c02(chk, r, o):
     if o["json"]["text"] != o["proto"]["text"]:
         chk.violation("tree %s: JSON-string API and protobuf API print different DSL" % r["id"], rep)
         return
+    ps = o.get("proto_shared")
+    if ps is not None and (not ps["ok"] or ps["text"] != o["proto"]["text"]):
+        chk.violation("tree %s: the same model with structurally equal rewrite subtrees shared (one message value in several places) %s" % (
+            r["id"], "prints different DSL" if ps["ok"] else "is refused: %s" % (ps.get("err") or ps.get("panic"))), dict(rep, shared=ps))
+        return
     rp = o["reparse"]
     if not rp["ok"]:
         # finding D20: class predicate (a parameter of type `any`) AND the output is exactly what the Impl layer predicts AND D20 is listed as known
